@@ -879,8 +879,8 @@ func canFollow(a, b ssa.Instruction) bool {
 func returnsOf(fn *ssa.Function) []*ssa.Return {
 	var out []*ssa.Return
 	for _, b := range fn.Blocks {
-		if len(b.Instrs) == 0 {
-			continue
+		if len(b.Instrs) == 0 || b == fn.Recover {
+			continue // the recover block (functions with defer) only re-returns the result cells
 		}
 		if r, ok := b.Instrs[len(b.Instrs)-1].(*ssa.Return); ok {
 			out = append(out, r)
